@@ -1,6 +1,7 @@
 package hx
 
 import (
+	"context"
 	"errors"
 	"fmt"
 	"sync"
@@ -93,6 +94,12 @@ func InstallFaults(f *Fed, faults []FaultSpec, barrier int) *FaultLog {
 						}
 						data, _ := Exec(s.Schema, s.Store, doc, in.OperationName, in.Variables)
 						return data, graphql.ErrorList{&graphql.Error{Message: "injected-with-data"}}, true
+					case "timeout":
+						// what a queryer with its own per-call budget returns: an error that wraps the context error of
+						// THAT call (the request's own context is alive and well)
+						fl.Failures++
+						fl.Errors++
+						return nil, fmt.Errorf("injected: the service did not answer in time: %w", context.DeadlineExceeded), true
 					case "gqlerrors+null":
 						// the way many servers report a failed field: the errors, and null where the field belongs
 						fl.Failures++
